@@ -1161,6 +1161,7 @@ func init() {
 			root := c.R.Fork()
 			disModelCases(c, root.Fork(), names)
 			disDeadBranchOracle(c)
+			disRepeatOracle(c)
 			n := 1500 * c.Scale
 			for i := 0; i < n; i++ {
 				disCheck(c, disGenerate(root.Fork(), names))
